@@ -1300,6 +1300,14 @@ static Plan gen_mpi(Rng& r, int tier, std::string const& focus)
         p.aux[0] = 1 + r.below(p.calls.size() - 1);
         p.aux[1] = r.chance(0.5) ? p.P : 1 + r.below(9);
     }
+    p.aux.push_back(0);
+    if (focus != "C03" && p.aux[0] == 0 && p.P >= 2 && p.P % 2 == 0 && r.chance(0.12))
+    {
+        // the world is split into two halves, each half runs the same job on its sub-communicator
+        p.aux[2] = p.P / 2;
+        p.rorder = 0;
+        p.target = 0;
+    }
     if (r.chance(tier ? 0.0015 : 0.0008))
     {
         // volume run: more calls than a float can count (2^24), in the thorough tier rarely more than
@@ -1318,7 +1326,7 @@ static Plan gen_mpi(Rng& r, int tier, std::string const& focus)
         p.stop = -1;
         p.target = 0;
         p.P = 1 + r.below(3);
-        p.aux.assign(2, 0);
+        p.aux.assign(3, 0);
         bool const huge = tier && r.chance(0.02);
         p.calls.assign(1, (huge ? (1ULL << 31) : (1ULL << 24)) + 1 + r.below(6));
         if (huge) p.P = 2 + r.below(2);
@@ -1666,6 +1674,95 @@ static void exec_mpi(Plan const& p, Report& rep)
     RunCtl ctl = ctl_from_plan(p);
     ctl.filename = CHK;
     ctl.stall_p = (p.variant == 0) ? 0.0 : (p.variant == 1) ? 0.05 : 0.25;
+
+    if (p.aux.size() >= 3 && p.aux[2] != 0 && 2 * p.aux[2] == P && p.variant != 9)
+    {
+        // two sub-communicators of equal size run the same job side by side; with rank-order
+        // reduction each must end exactly as a job on a world of that size does
+        u64 const a = p.aux[2];
+        rep.probes["split-communicator"]++;
+        Report scratch;
+        Session ref(p, scratch);
+        ref.check = false;
+        ref.fresh();
+        RunCtl rc = ctl;
+        rc.P = a;
+        RunOut const ro = ref.run(p.calls, rc);
+        if (ro.threw || ro.killed || ro.hang) return;
+        std::string const want = ref.w->text();
+
+        s.check = false;
+        RunCtl sc = ctl;
+        sc.P = P;
+        sc.comm_split = a;
+        RunOut const o = s.run(p.calls, sc);
+        if (o.threw)
+        {
+            rep.fail("C04", "exception", key, o.what);
+            return;
+        }
+        if (o.hang || o.killed) return;   // hang reported by the session
+
+        UsageInfo const ui = s.w->usage();
+        u64 const per_call = (p.dims + (p.integ == MULTI ? 1 : 0)) * ui.predicted;
+
+        for (u64 g = 0; g != 2; ++g)
+        {
+            // tiling inside the group (C16)
+            u64 start = 0;
+            for (u64 k = 0; k < ro.results; ++k)
+            {
+                u64 const N = p.calls[k];
+                u64 expect = start, total = 0;
+                for (u64 r = 0; r != a; ++r)
+                {
+                    Ctx const& c = o.ranks[g * a + r];
+                    auto const st = c.stats.find(static_cast<std::uint32_t>(k));
+                    u64 const cnt = (st == c.stats.end()) ? 0 : st->second.calls;
+                    u64 const want_cnt = N / a + (r < N % a ? 1 : 0);
+                    std::string const k16 = fmt("total=%llu world=%llu sub-communicator", (unsigned long long) N,
+                        (unsigned long long) a);
+                    if (cnt != want_cnt)
+                    {
+                        rep.fail("C16", "share-sizes", k16, fmt(
+                            "iteration %llu, group %llu, rank %llu of the sub-communicator: %llu calls, expected %llu",
+                            (unsigned long long) k, (unsigned long long) g, (unsigned long long) r, (unsigned long long) cnt,
+                            (unsigned long long) want_cnt));
+                        g = 2;
+                        break;
+                    }
+                    if (cnt != 0 && st->second.first_pos - per_call != expect)
+                    {
+                        rep.fail("C16", "gap-or-overlap", k16, fmt(
+                            "iteration %llu, group %llu, rank %llu of the sub-communicator starts at stream position %llu, the shares before it end at %llu",
+                            (unsigned long long) k, (unsigned long long) g, (unsigned long long) r,
+                            (unsigned long long) (st->second.first_pos - per_call), (unsigned long long) expect));
+                        g = 2;
+                        break;
+                    }
+                    expect += cnt * per_call;
+                    total += cnt;
+                }
+                if (g >= 2) break;
+                start += N * per_call;
+            }
+        }
+
+        for (u64 r = 0; r != o.rank_texts.size(); ++r)
+        {
+            if (o.rank_texts[r] != want)
+            {
+                rep.fail("C04", "sub-communicator-differs", key, fmt(
+                    "world rank %llu (group %llu of a world split into halves of %llu) returned another checkpoint than a job on a world of %llu ranks",
+                    (unsigned long long) r, (unsigned long long) (r / a), (unsigned long long) a, (unsigned long long) a));
+                rep.fail("C16", "sub-communicator-differs", fmt("world=%llu sub-communicator", (unsigned long long) a), fmt(
+                    "world rank %llu of a world split into halves of %llu ends elsewhere than on a world of that size",
+                    (unsigned long long) r, (unsigned long long) a));
+                return;
+            }
+        }
+        return;
+    }
 
     // aux = {split, P2}: the job is stopped after `split` iterations, restarted from the text with P2
     // ranks (a different world size is legal: only the text survives)
